@@ -88,21 +88,45 @@ fn ref_parts(url: &str) -> Option<RefParts> {
 fn has_ignored(s: &str) -> bool {
     s.contains(|c| c == '\t' || c == '\n' || c == '\r')
 }
-fn has_delim(s: &str) -> bool {
-    // URL delimiters, and C0/space (trimmed when the normalised URL is read again)
-    s.contains(|c| matches!(c, '/' | '?' | '#' | '@' | ':' | '\\') || c <= ' ')
+/// bytes of an idna answer that make the (repaired) scanner reject the host
+fn rejected_byte(b: u8) -> bool {
+    b <= b' ' || b == 0x7f || b"#/:<>?@[\\]^|".contains(&b)
 }
 
-/// Known-finding class of an input URL, decided on the input alone.
-fn known_class(url: &str) -> Option<&'static str> {
+fn strip_ignored(s: &str) -> String {
+    s.chars().filter(|c| !matches!(c, '\t' | '\n' | '\r')).collect()
+}
+
+/// The host the request must report, from the reference split of the URL text: tab/LF/CR dropped,
+/// copied when ASCII, idna image otherwise; None = no (valid) host, the request must be rejected.
+fn expected_host(url: &str) -> Option<String> {
+    let p = ref_parts(url)?;
+    let h = strip_ignored(&p.raw_host);
+    if h.is_empty() {
+        return None;
+    }
+    if h.is_ascii() {
+        return Some(h);
+    }
+    let e = idna::domain_to_ascii(&h).ok()?;
+    if e.is_empty() || e.bytes().any(rejected_byte) {
+        return None;
+    }
+    Some(e)
+}
+
+/// Statistics only: inputs of the former findings F21 / F25 (fixed in /repo 115106e). They are
+/// ordinary cases now; a regression is reported as a violation (class None).
+fn former_class(url: &str) -> Option<&'static str> {
     let p = ref_parts(url)?;
     if has_ignored(&p.authority) {
-        return Some("F21_ignored_chars_in_host");
+        return Some("former_F21_ignored_chars_in_authority");
     }
-    if !p.raw_host.is_ascii() {
-        if let Ok(e) = idna::domain_to_ascii(&p.raw_host) {
-            if has_delim(&e) {
-                return Some("F25_idna_maps_to_url_delimiter");
+    let h = strip_ignored(&p.raw_host);
+    if !h.is_ascii() {
+        if let Ok(e) = idna::domain_to_ascii(&h) {
+            if e.bytes().any(rejected_byte) {
+                return Some("former_F25_idna_answer_with_delimiter");
             }
         }
     }
@@ -275,6 +299,11 @@ fn idna_entries(url: &str, out: &mut Vec<(String, Option<String>)>) {
                 if !s.is_ascii() && !out.iter().any(|(k, _)| k == s) {
                     out.push((s.to_string(), idna::domain_to_ascii(s).ok()));
                 }
+                let f = strip_ignored(s);
+                if !f.is_ascii() && !out.iter().any(|(k, _)| *k == f) {
+                    let v = idna::domain_to_ascii(&f).ok();
+                    out.push((f, v));
+                }
             }
         }
     }
@@ -387,20 +416,9 @@ fn oracle(e: &Engine, url: &str, src: &str, ty: &str) -> Vec<(Option<&'static st
             return fails;
         }
     };
-    let class = known_class(url);
+    let class: Option<&'static str> = None;
     let parts = ref_parts(url);
-    // expected host from the reference split
-    let expect: Option<String> = match &parts {
-        Some(p) if !p.raw_host.is_empty() => {
-            if p.raw_host.is_ascii() {
-                Some(p.raw_host.clone())
-            } else {
-                idna::domain_to_ascii(&p.raw_host).ok()
-            }
-        }
-        _ => None,
-    };
-    let expect = expect.filter(|h| !h.is_empty());
+    let expect = expected_host(url);
     match (&built, &expect) {
         (Ok(r), Some(h)) => {
             if &r.hostname != h {
@@ -422,7 +440,7 @@ fn oracle(e: &Engine, url: &str, src: &str, ty: &str) -> Vec<(Option<&'static st
     }
     // the url crate as second opinion
     if let Some(p) = &parts {
-        if ["http", "https", "ws", "wss"].contains(&p.scheme.as_str()) && plain_host(&p.raw_host) && class.is_none() {
+        if ["http", "https", "ws", "wss"].contains(&p.scheme.as_str()) && plain_host(&strip_ignored(&p.raw_host)) {
             match url::Url::parse(url) {
                 Ok(u) => {
                     if u.host_str() != Some(req.hostname.as_str()) {
@@ -455,8 +473,8 @@ fn oracle(e: &Engine, url: &str, src: &str, ty: &str) -> Vec<(Option<&'static st
             String::new()
         }
     };
-    let src_expect: Option<String> = ref_parts(src).and_then(|p| if p.raw_host.is_empty() { None } else if p.raw_host.is_ascii() { Some(p.raw_host) } else { idna::domain_to_ascii(&p.raw_host).ok().filter(|h| !h.is_empty()) });
-    let sclass = known_class(src);
+    let src_expect: Option<String> = expected_host(src);
+    let sclass: Option<&'static str> = None;
     let want_tp = match &src_expect {
         None => true,
         Some(sh) => domain_of(sh) != domain_of(&req.hostname),
@@ -561,7 +579,7 @@ fn main() {
         let sc = scan(&url);
         let has_auth = ref_parts(&url).map(|p| !p.authority.is_empty()).unwrap_or(false);
         cs.stat(match &sc { Ok((_, _, hs, he)) if hs < he => "scan_ok_host", Ok(_) => "scan_ok_no_host", Err(_) => "scan_err" });
-        if let Some(c) = known_class(&url) { cs.stat(c) }
+        if let Some(c) = former_class(&url) { cs.stat(c) }
         if !url.is_ascii() { cs.stat("non_ascii_url") }
         let (want, code) = match &sc {
             Ok((ser, se, hs, he)) => (format!("(Some ({}, {}, {}, {}))", hxs(ser), cn(se), cn(hs), cn(he)), 0),
